@@ -79,7 +79,7 @@ def ensure_binary(ctx, log=True):
     """Synchronise the scratch tree with REPO's working tree and rebuild what changed (hooks on). Returns tree path."""
     tree = tree_path()
     vlib.mkdirs(CACHE)
-    lock = open(os.path.join(CACHE, 'tree.lock'), 'w')
+    lock = open(tree + '.lock', 'w')
     fcntl.flock(lock, fcntl.LOCK_EX)
     try:
         t0 = time.time()
